@@ -581,7 +581,139 @@ register("C02", run_C02, rule="add/remove histories and worklist programs with b
 register("C03", run_C03, rule="worklist programs whose last operation is built to fail at a chosen sub-step; records replayed after every operation")
 register("C04", run_C04, rule="direct add/remove histories over plates and troughs with scalar/list/2-D arguments and repeats")
 register("C05", run_C05, rule="transfer/distribute/dispense histories with shared component names; exact amounts ledger")
-register("C06", run_C06, rule="(volume, max_volume) grid incl. k*M, k*M±step, non-integer M; plus transfers with split volumes")
+register("C06", run_C06, module="Robotools.Props.C06",
+         theorems=["Robotools.C06.partition_spec", "Robotools.C06.partition_zero", "Robotools.C06.multi_disp_fits",
+                   "Robotools.C06.multi_disp_unchanged"], rule="(volume, max_volume) grid incl. k*M, k*M±step, non-integer M; plus transfers with split volumes")
 register("C07", run_C07, rule="transfer programs: shuffled triples with repeats, all wash schemes / partition modes / DiTi")
 register("C11", run_C11, rule="mixed histories; history compared after every operation against deep copies")
 register("C16", run_C16, rule="each program executed on EvoWorklist, FluentWorklist and BaseWorklist against one device-parametric model")
+
+
+# ------------------------------------------------------------------ C19 get_trough_wells
+def run_C19(ctx):
+    from robotools import get_trough_wells
+    import numpy as np
+    res = Result()
+    rng = ctx.rng
+    cases = []
+    seen = set()
+    for _ in range(ctx.n(500)):
+        L = rng.randint(1, 26)
+        mode = rng.random()
+        ids = [G.wid(r, 0) for r in range(L)]
+        if mode < 0.4:
+            arr = ("V", ids)
+        elif mode < 0.7 and L % 2 == 0:
+            r, c = 2, L // 2
+            arr = ("M", r, c, [G.wid(i, j) for i in range(r) for j in range(c)])
+        else:
+            r = rng.randint(1, 8); c = rng.randint(1, 3)
+            arr = ("M", r, c, [G.wid(i, j) for i in range(r) for j in range(c)])
+        flat = G.Builder.flatF(arr)
+        n = rng.choice([0, 1, len(flat) - 1, len(flat), len(flat) + 1, 2 * len(flat), 3 * len(flat), rng.randint(0, 200), -1, proto.Bad(2.5)])
+        if rng.random() < 0.05:
+            arr = ("V", [])
+            flat = []
+        key = (repr(n), proto.dumps(arr))
+        if key in seen:
+            continue
+        seen.add(key)
+        def call(n=n, arr=arr):
+            out = get_trough_wells(impl.fl(n), impl.arr_str(arr) if arr[0] != "V" else np.array(arr[1], dtype=str) if rng.random() < 0.5 else list(arr[1]))
+            return "ok " + ",".join(proto.e_str(str(x)) for x in out)
+        ans = guarded(call)
+        msg = None
+        ok_n = isinstance(n, int) and n >= 0 and len(flat) > 0
+        if ok_n:
+            want = [flat[i % len(flat)] for i in range(n)]
+            if ans != "ok " + ",".join(proto.e_str(x) for x in want):
+                msg = f"get_trough_wells({n}, {flat[:6]}…) returned {ans[:120]}, expected the wells cyclically"
+        elif not ans.startswith("err"):
+            msg = f"get_trough_wells({n!r}, {len(flat)} wells) accepted"
+        cases.append({"line": f"trough_wells {proto.e_intarg(n)} {proto.e_arr(proto.e_str, arr)}", "impl": ans,
+                      "case": {"kind": "fn", "fn": "get_trough_wells", "n": n, "wells": arr}, "oracle": msg, "sig": "C19:get_trough_wells",
+                      "nontrivial": ok_n and n > 0})
+    fn_stream(ctx, res, "get_trough_wells", cases, lambda a, b: a == b or (a.startswith("err") and b.startswith("err")))
+    return res
+
+
+# ------------------------------------------------------------------ C18 partition_by_column
+def run_C18(ctx):
+    from robotools.worklists.utils import partition_by_column, optimize_partition_by
+    res = Result()
+    rng = ctx.rng
+    cases = []
+    for _ in range(ctx.n(400)):
+        n = rng.choice([0, 1, 2, 3, 5, 8, 12, 16, 24, 40])
+        R = rng.choice([2, 4, 8, 16, 26]); C = rng.choice([1, 2, 3, 12, 24, 99])
+        pool_s = [G.wid(rng.randrange(R), rng.randrange(C)) for _ in range(max(1, n // 2 + 1))]
+        pool_d = [G.wid(rng.randrange(R), rng.randrange(C)) for _ in range(max(1, n))]
+        ss = [rng.choice(pool_s) for _ in range(n)]
+        ds = [rng.choice(pool_d) for _ in range(n)]
+        vs = [G.grid(rng, 0, 300) for _ in range(n)]
+        mode = rng.choice(["source", "destination", "source", "destination", "auto", "rows", ""])
+        # numpy's argsort is not stable beyond 16 elements: keep groups with tied keys small
+        key = ss if mode == "source" else ds
+        byg = Counter(k[1:] for k in key)
+        if any(cnt > 16 for cnt in byg.values()) and len(set(key)) < len(key):
+            continue
+        def call():
+            out = partition_by_column(ss, ds, [float(v) for v in vs], mode)
+            return "ok " + "|".join(";".join(f"{proto.e_str(str(s))},{proto.e_str(str(d))},{proto.e_rat(F(float(v)))}" for s, d, v in zip(*g)) for g in out)
+        ans = guarded(call)
+        msg = None
+        if mode in ("source", "destination") and ans.startswith("ok"):
+            groups = [[tuple(t.split(",")) for t in g.split(";")] for g in ans[3:].split("|")] if len(ans) > 3 else []
+            flat = [t for g in groups for t in g]
+            want = sorted((proto.e_str(s), proto.e_str(d), proto.e_rat(v)) for s, d, v in zip(ss, ds, vs))
+            side = 0 if mode == "source" else 1
+            if sorted(flat) != want:
+                msg = "groups do not contain exactly the input triples"
+            else:
+                cols = []
+                for g in groups:
+                    ks = {proto.d_str(t[side])[1:] for t in g}
+                    if len(ks) != 1:
+                        msg = "a group mixes columns"
+                    cols.append(sorted(ks)[0])
+                    rows = [proto.d_str(t[side]) for t in g]
+                    if rows != sorted(rows):
+                        msg = "rows within a group not ascending"
+                if cols != sorted(set(cols)) and msg is None:
+                    msg = "groups not in ascending column order / column split over groups"
+        elif mode not in ("source", "destination") and n > 0 and not ans.startswith("err"):
+            msg = f"invalid mode {mode!r} accepted"
+        if n == 0 and mode not in ("source", "destination"):
+            continue   # nothing to iterate: the mode is never inspected
+        if msg:
+            msg = f"partition_by_column({ss}, {ds}, …, {mode!r}): {msg}"
+        cases.append({"line": f"partition_by_column {','.join(proto.e_str(s) for s in ss) or '_'} {','.join(proto.e_str(s) for s in ds) or '_'} {','.join(proto.e_rat(v) for v in vs) or '_'} {proto.e_str(mode)}",
+                      "impl": ans, "case": {"kind": "fn", "fn": "partition_by_column", "src": ss, "dst": ds, "vols": vs, "mode": mode},
+                      "oracle": msg, "sig": "C18:partition_by_column", "nontrivial": n > 1})
+    fn_stream(ctx, res, "partition_by_column", cases, lambda a, b: a == b or (a.startswith("err") and b.startswith("err")))
+    # optimize_partition_by
+    cases = []
+    for st in (False, True):
+        for dt in (False, True):
+            for mode in ("auto", "source", "destination", "rows", "", "Auto"):
+                S = impl.Trough("S", 2, 1, min_volume=0, max_volume=10) if st else impl.Labware("S", 2, 1, min_volume=0, max_volume=10)
+                D = impl.Trough("D", 2, 1, min_volume=0, max_volume=10) if dt else impl.Labware("D", 2, 1, min_volume=0, max_volume=10)
+                ans = guarded(lambda: "ok " + optimize_partition_by(S, D, mode))
+                want = None
+                if mode == "auto":
+                    want = "ok destination" if (st and not dt) else "ok source"
+                elif mode in ("source", "destination"):
+                    want = "ok " + mode
+                msg = None
+                if (want is not None and ans != want) or (want is None and not ans.startswith("err")):
+                    msg = f"optimize_partition_by(trough={st}, trough={dt}, {mode!r}) = {ans}"
+                cases.append({"line": f"optimize {int(st)} {int(dt)} {proto.e_str(mode)}", "impl": ans,
+                              "case": {"kind": "fn", "fn": "optimize_partition_by", "src_trough": st, "dst_trough": dt, "mode": mode},
+                              "oracle": msg, "sig": "C18:optimize_partition_by"})
+    fn_stream(ctx, res, "optimize_partition_by", cases)
+    res.exhaustive = False
+    return res
+
+
+register("C19", run_C19, rule="(n, wells) pairs: n in {0,1,len-1,len,len+1,k*len,random,negative,non-int}; wells as list, 1-D and 2-D arrays of length 1..26")
+register("C18", run_C18, rule="triple lists of length 0..40 with repeated wells and equal keys, rows A..Z, columns 1..99, both modes and invalid modes; all 4x6 optimize_partition_by combinations")
